@@ -3,7 +3,7 @@
 use std::collections::{HashMap, HashSet};
 use std::fs;
 use std::path::{Path, PathBuf};
-use std::sync::Arc;
+use std::sync::{Arc, Mutex};
 use tokio::sync::RwLock;
 
 use tower_lsp::jsonrpc::Result;
@@ -35,6 +35,11 @@ pub struct DocumentState {
 pub struct IncanLanguageServer {
     client: Client,
     documents: Arc<RwLock<HashMap<Url, DocumentState>>>,
+    /// Latest version the client announced for each open document (absent once closed).
+    ///
+    /// Handlers run concurrently and may finish out of order; an analysis only stores and publishes
+    /// its result while its version is still the latest one announced.
+    latest: Arc<Mutex<HashMap<Url, i32>>>,
 }
 
 impl IncanLanguageServer {
@@ -42,7 +47,54 @@ impl IncanLanguageServer {
         Self {
             client,
             documents: Arc::new(RwLock::new(HashMap::new())),
+            latest: Arc::new(Mutex::new(HashMap::new())),
         }
+    }
+
+    /// Record the latest announced version of `uri` (`None` when the document was closed).
+    fn announce(&self, uri: &Url, version: Option<i32>) {
+        let mut latest = match self.latest.lock() {
+            Ok(guard) => guard,
+            Err(poisoned) => poisoned.into_inner(),
+        };
+        match version {
+            Some(v) => {
+                latest.insert(uri.clone(), v);
+            }
+            None => {
+                latest.remove(uri);
+            }
+        }
+    }
+
+    /// Whether `version` is still the latest announced version of `uri`.
+    fn is_latest(&self, uri: &Url, version: i32) -> bool {
+        let latest = match self.latest.lock() {
+            Ok(guard) => guard,
+            Err(poisoned) => poisoned.into_inner(),
+        };
+        latest.get(uri) == Some(&version)
+    }
+
+    /// Store the analysed document and publish its diagnostics, unless a newer version (or a close)
+    /// has been announced in the meantime.
+    async fn store_and_publish(&self, uri: &Url, state: DocumentState, diagnostics: Vec<Diagnostic>) {
+        let version = state.version;
+        {
+            let mut docs = self.documents.write().await;
+            if !self.is_latest(uri, version) {
+                return;
+            }
+            docs.insert(uri.clone(), state);
+        }
+
+        if !self.is_latest(uri, version) {
+            return;
+        }
+        // Publish diagnostics (even if empty, to clear old ones)
+        self.client
+            .publish_diagnostics(uri.clone(), diagnostics, Some(version))
+            .await;
     }
 
     /// Analyze a document and publish diagnostics
@@ -57,9 +109,14 @@ impl IncanLanguageServer {
                 for error in &errors {
                     diagnostics.push(compile_error_to_diagnostic(error, source, uri));
                 }
-                self.client
-                    .publish_diagnostics(uri.clone(), diagnostics, Some(version))
-                    .await;
+                // Keep the latest text even when it does not lex (hover/completion answer from it).
+                let state = DocumentState {
+                    source: source.to_string(),
+                    ast: None,
+                    version,
+                    const_types: HashMap::new(),
+                };
+                self.store_and_publish(uri, state, diagnostics).await;
                 return;
             }
         };
@@ -72,9 +129,14 @@ impl IncanLanguageServer {
                 for error in &errors {
                     diagnostics.push(compile_error_to_diagnostic(error, source, uri));
                 }
-                self.client
-                    .publish_diagnostics(uri.clone(), diagnostics, Some(version))
-                    .await;
+                // Keep the latest text even when it does not parse.
+                let state = DocumentState {
+                    source: source.to_string(),
+                    ast: None,
+                    version,
+                    const_types: HashMap::new(),
+                };
+                self.store_and_publish(uri, state, diagnostics).await;
                 return;
             }
         };
@@ -105,24 +167,14 @@ impl IncanLanguageServer {
             }
         }
 
-        // Store AST for hover/goto
-        {
-            let mut docs = self.documents.write().await;
-            docs.insert(
-                uri.clone(),
-                DocumentState {
-                    source: source.to_string(),
-                    ast: Some(ast),
-                    version,
-                    const_types,
-                },
-            );
-        }
-
-        // Publish diagnostics (even if empty, to clear old ones)
-        self.client
-            .publish_diagnostics(uri.clone(), diagnostics, Some(version))
-            .await;
+        // Store AST for hover/goto and publish, unless this analysis has been overtaken.
+        let state = DocumentState {
+            source: source.to_string(),
+            ast: Some(ast),
+            version,
+            const_types,
+        };
+        self.store_and_publish(uri, state, diagnostics).await;
     }
 
     /// Collect and parse dependency modules referenced by imports in `ast`.
@@ -493,6 +545,7 @@ impl LanguageServer for IncanLanguageServer {
         let source = params.text_document.text;
         let version = params.text_document.version;
 
+        self.announce(&uri, Some(version));
         self.analyze_document(&uri, &source, version).await;
     }
 
@@ -502,12 +555,14 @@ impl LanguageServer for IncanLanguageServer {
 
         // We use FULL sync, so there's only one change with the full content
         if let Some(change) = params.content_changes.into_iter().next() {
+            self.announce(&uri, Some(version));
             self.analyze_document(&uri, &change.text, version).await;
         }
     }
 
     async fn did_close(&self, params: DidCloseTextDocumentParams) {
         let uri = params.text_document.uri;
+        self.announce(&uri, None);
 
         // Remove document from cache
         let mut docs = self.documents.write().await;
